@@ -47,7 +47,7 @@ class C13(C02):
         if res.get("code") != rb.get("code"):
             return {"monitor": "pair.sync", "class": "command_outcome_differs",
                     "detail": {"argv": op["argv"], "a": res.get("code"), "b": rb.get("code"), "err_b": (rb.get("err") or "")[-300:]}}
-        return compare_pair(ex, what=("notes", "blame"))
+        return compare_pair(ex, what=("notes", "blame"), strict_prompts=False)
 
     def final(self, ex, cfg):
         return None
